@@ -309,6 +309,10 @@ def reopen_oracle(h, rec):
     h.stats["volatile_repr_results_skipped"] = h.stats.get("volatile_repr_results_skipped", 0) + 1
     return
   negref = re.compile(r'\[\\?"R\\?", \\?"\w+\\?", -\d+\]')
+  from gx.hist_run import decoded_error_only, DECODED_ERROR_SIG
+  if d and decoded_error_only(d):
+    h._find(PROP, DECODED_ERROR_SIG % "reload", "%s; Calculate stored %s" % ("; ".join(d[:2]), json.dumps(res.stored)[:200]), rec)
+    return
   if d and all(negref.search(x) for x in d):
     h._find(PROP, SIG_NEGREF, "%s; Calculate stored %s" % ("; ".join(d[:2]), json.dumps(res.stored)[:200]), rec)
     return
